@@ -617,7 +617,7 @@ def run_c12(tier, budget, rnd) -> StreamResult:
     script = Script()
     quick = tier == "quick"
     procs_list = [1, 2, 3, 5] if quick else list(range(1, 17))
-    reps_list = [1, 2, 5, 8] if quick else [1, 2, 3, 5, 8, 13, 24]
+    reps_list = [1, 2, 5, 9] if quick else [1, 2, 3, 5, 9, 13, 24]     # 9 = 4·2 + 1, 13 = 4·3 + 1: more repetitions than 4 per worker
     tmpdir = tempfile.mkdtemp(prefix="verif_c12_")
     cap_path = os.path.join(tmpdir, "cap.jsonl")
     post = []          # checks done after the model answered
@@ -731,7 +731,7 @@ def run_c12(tier, budget, rnd) -> StreamResult:
             res.notes.append("budget exhausted in the ModelInstance cases")
             break
         n = 3 if ci % 3 == 2 else 4
-        reps = reps_list[ci % len(reps_list)] if ci >= 2 else (8 if quick else 13)
+        reps = reps_list[ci % len(reps_list)] if ci >= 2 else (13 if ci == 0 else 9 if quick else 17)
         limit = rnd.choice([2, 3]) if n == 4 else rnd.choice([2, 3, 4])
         seed = rnd.randrange(1, 10 ** 6)
         cls = ["superadditive", "superadditive_cached"][ci % 2]
